@@ -235,6 +235,38 @@ Theorem C04_source_registry :
 Proof. exact source_registry. Qed.
 Print Assumptions C04_source_registry.
 
+(* GroupBy.do / map of the working tree, with `method` naming a translated AgentSet method, run on the model
+   state, IS the model's visit_groups (both forms of `method` at both levels) *)
+Theorem C04_source_groupby_is_visit_groups : forall k f,
+  In (k, f) source_fns ->
+  forall ex sc is_str inner_is_str gs perms s,
+    run_gfn ex sc gen_groupby_do_fn is_str f inner_is_str gs perms s = visit_groups ex k sc gs perms s /\
+    run_gfn ex sc gen_groupby_map_fn is_str f inner_is_str gs perms s = visit_groups ex k sc gs perms s.
+Proof. exact source_groupby_is_visit_groups. Qed.
+Print Assumptions C04_source_groupby_is_visit_groups.
+
+(* --- round 3: any nesting depth, caught exceptions, strong lists --- *)
+(* an exception caught inside the callback (try: set.do(...) except Exception) never leaves it *)
+Theorem C04_caught_exception_stays_inside : forall inner sc2 self s k r perm,
+  snd (ex_next inner sc2 self s (TryNested k r perm)) = false.
+Proof. exact try_nested_never_raises. Qed.
+Print Assumptions C04_caught_exception_stays_inside.
+
+(* whatever happens inside (nesting of any depth, exceptions caught or not), an activation leaves the
+   stack of activation frames exactly as it found it: no frame - and no agent bound in one - leaks *)
+Theorem C04_frames_restored : forall scs k perm sc snap s s' log rz,
+  activate (exN scs) k perm sc snap s = Some (s', log, rz) -> cur s' = cur s.
+Proof. exact activate_frames_restored. Qed.
+Print Assumptions C04_frames_restored.
+
+(* groupby(result_type="list").do/map(callable): the GroupBy holds the agents strongly, so unless a
+   callback raises EVERY member at groupby time is reached exactly once, group by group in first-seen
+   key order - whether or not it was removed from its model meanwhile *)
+Theorem C04_grouplist_all_reached : forall scs sc m members s s' logs,
+  group_lists (exN scs) sc m members s = (s', logs, false) -> logs = groups_of m members.
+Proof. exact group_lists_all. Qed.
+Print Assumptions C04_grouplist_all_reached.
+
 (* ------------------------------------------------------------------ non-vacuity *)
 Definition ex_ops : list op :=
   [OAct (Create 0 3 false); OAct (Create 1 2 false); OAct (RemoveId 4 true); ONewSet [5; 4; 2; 1; 9; 2]].
@@ -327,3 +359,26 @@ Example C04_example_source_registry :
   create_stmts gen_register_order 2 true (reached ex_ops) = create1 2 true (reached ex_ops) /\
   lookup (SType 2) (sets (create1 2 true (reached ex_ops))) = Some [6].
 Proof. vm_compute. repeat split. Qed.
+
+(* depth 3 with a caught exception: 1 runs user-set.map inside try/except (4 raises in there: caught,
+   marked -36) and goes on to remove 4; 2 runs model.agents.do, in which 3 runs agents_by_type[0].do,
+   in which 3 raises: that exception leaves all three activations *)
+Definition ex_ops4 : list op :=
+  [OAct (Create 0 1 false); OAct (Create 1 1 false); OAct (Create 0 1 false); OAct (Create 1 1 false); ONewSet [4; 3; 2; 1]].
+Example C04_example_deep :
+  exists s', activate (exN [[(4, [Raise]); (3, [Nested KDo (SType 0) []])]; [(1, [RemoveId 2 false]); (3, [Raise])]])
+                      KDo [] [(1, [TryNested KMap (SUser 0) []; RemoveId 4 false]); (2, [Nested KDo SAll []])]
+                      [1; 2; 3; 4] (reached ex_ops4) = Some (s', [1; 2], true) /\
+             nlog s' = [-35; 4; -36; -35; 1; 3; -35; 1; 2; 3] /\ reg s' = [1; 3] /\ cur s' = [].
+Proof. eexists. vm_compute. repeat split. Qed.
+
+(* list groups: 1 removes 3 and 2 removes itself, both are still reached (the GroupBy holds them) *)
+Example C04_example_grouplist :
+  exists s', group_lists (exN []) [(1, [RemoveId 3 false]); (2, [RemoveSelf false])] 2 [1; 2; 3; 4] (reached ex_ops4)
+             = (s', [(1, [1; 3]); (0, [2; 4])], false) /\ reg s' = [1; 4] /\ cur s' = [].
+Proof. eexists. vm_compute. repeat split. Qed.
+
+Example C04_example_group_bridge :
+  exists s', run_gfn (ex1 []) ex_sc gen_groupby_do_fn true gen_do_fn false (groups_of 2 [5; 4; 2; 1]) [] (reached ex_ops)
+             = Some (s', [(1, [5; 1]); (0, [4])], false).
+Proof. eexists. vm_compute. reflexivity. Qed.
